@@ -127,6 +127,9 @@ def cases(tier, seed):
             for model in list(table) + ["NO_SUCH_MODEL"]:
                 for sized in (False, True):
                     yield ("passive", name, (kind, str(model), sized))
+        for pk in ("res", "cap"):
+            for model in d["passives"].get(pk, {}):
+                yield ("passive-other-arity", name, (pk, str(model)))
         yield ("sizes", name, None)
         yield ("history", name, None)
         yield ("lists-arrays-literals", name, None)
@@ -220,6 +223,35 @@ def check_case(case):
             prim3 = {"res": h.primitives.ThreeTerminalResistor, "cap": h.primitives.ThreeTerminalCapacitor}[pk]
             call = prim3(**kw)
         return compile_and_check(call, acc, depth=1)
+    if kind == "passive-other-arity":
+        # the same table entries requested through the generic primitive with the OTHER terminal count (2 vs 3): either
+        # refused with a message, or compiled into a valid design - never an instance connecting a port the device lacks
+        pk, model = arg
+        table = P["passives"][pk]
+        key = next((k for k in table if str(k) == model), None)
+        if key is None:
+            return None
+        dev = table[key]
+        two = {"res": h.primitives.PhysicalResistor, "cap": h.primitives.PhysicalCapacitor}[pk]
+        three = {"res": h.primitives.ThreeTerminalResistor, "cap": h.primitives.ThreeTerminalCapacitor}[pk]
+        prim = two if len(dev.ports) == 3 else three
+        try:
+            call = prim(model=key)
+        except Exception:
+            return None
+        top = design(call, depth=1)
+        try:
+            P["compile"](top)
+        except (RuntimeError, ValueError, TypeError) as e:
+            return None if str(e).strip() else (f"{pname}.error-not-descriptive", f"{case!r}: {type(e).__name__} without a message", w)
+        except Exception as e:
+            return (f"{pname}.raises.{type(e).__name__}", f"{case!r}: {type(e).__name__}: {str(e)[:100]}", w)
+        devs = [t for pth, t in leaf_targets(top).items() if pth[-1] == "dev"]
+        if devs and isinstance(devs[0], h.ExternalModuleCall) and set(devs[0].module.ports) != set(call.ports):
+            return (f"{pname}.terminal-count-mismatch/{pk}", f"{case!r}: {devs[0].module.name} has ports "
+                    f"{sorted(devs[0].module.ports)} but was selected for a {len(call.ports)}-terminal generic {pk}: the "
+                    f"compiled instance connects {sorted(call.ports)}", w)
+        return None
     if kind == "sizes":
         # given sizes are passed through, absent sizes take the PDK's default - each of w and l on its own
         req = dict(tp=MosType.NMOS, family=MosFamily.CORE, vth=MosVth.STD)
